@@ -197,6 +197,9 @@ def ssh_cases(ctx):
         # connect(host=None, sock=...) (call-home / outbound ssh): only a pinned key or the callback can accept the peer
         for pin, (ucb, cbv), kh in itertools.product(PINS, CALLBACKS[:4], [None, [('host', 'E1')]]):
             yield ssh_case(verify=True, kh=kh, pin=pin, user_cb=ucb, cb_verdict=cbv, host_none=True)
+        # one SSHSession object connected twice (a retry after a failed authentication that an accepting callback preceded)
+        for pin, (ucb, cbv), kh in itertools.product([None, 'E2'], CALLBACKS[:4], [None, [('host', 'E2')], [('host', 'E1')]]):
+            yield ssh_case(verify=True, kh=kh, pin=pin, user_cb=ucb, cb_verdict=cbv, prior_accept=True)
     else:
         yield from hostkey_grid(profs)
         bases = [dict(verify=False), dict(verify=True, kh=[('host', 'E1')]), dict(verify=True, pin='E1'),
